@@ -60,6 +60,10 @@ def programs(tier, pid):
     P8 = mkprog("P8", [T("M", lit=["a.txt"], glob=["*.txt"], cand=["a.txt", "b.txt"]), T("N")], ["a.txt", "b.txt"],
                 init={"a.txt": 0, "b.txt": 9})          # the same file named twice (literally and by the glob)
     P9 = mkprog("P9", [T("A", lit=["a.txt"]), T("B", lit=["a.txt", "b.txt"], deps=["A"])], ["a.txt", "b.txt"])   # a shared file and one of its own
+    # a generator: G (no file dependency, always runs) writes g.x; B depends on G and on every *.x -- B's inputs are what G leaves behind
+    P10 = mkprog("P10", [T("G"), T("B", glob=["*.x"], cand=["a.x", "g.x"], deps=["G"])], ["a.x", "g.x"], init={"a.x": 0, "g.x": 9},
+                 reqsets=[["B"], ["G"], ["G", "B"]], failsets=[[], ["B"]])
+    P10["effects"] = {"G": [["g.x", 1]]}
     P7 = mkprog("P7", [T("A", lit=["a.txt"]), T("B", lit=["b.txt"]), T("D", lit=["a.txt", "b.txt"], deps=["A", "B"])], ["a.txt", "b.txt"])
     if pid == "C10":
         # kill points multiply the alphabet: smaller programs
@@ -79,11 +83,11 @@ def programs(tier, pid):
             p["failsets"] = [[]] + [[n] for n in names]
         return ps
     if tier == "quick":
-        ps = [P1, P5, P4] if pid == "C14" else [P1, P3, P4, P2, P8, P9]
+        ps = [P1, P5, P4] if pid == "C14" else [P1, P3, P4, P2, P8, P9, P10]
     else:
         for p in (P1, P3, P5, P7):
             p["ncontents"] = 3
-        ps = [P1, P2, P3, P4, P5, P6, P7, P8, P9]
+        ps = [P1, P2, P3, P4, P5, P6, P7, P8, P9, P10]
         for p in ps:
             p["reps"] = 4
     return ps
